@@ -337,11 +337,14 @@ func NewWAF() *WAF {
 		auditLogWriter:            logWriter,
 		auditLogWriterInitialized: false,
 		AuditLogWriterConfig:      auditlog.NewConfig(),
+		// documented default of SecAuditLogParts: ABCFHZ (A and Z are mandatory)
 		AuditLogParts: types.AuditLogParts{
+			types.AuditLogPartHeader,
 			types.AuditLogPartRequestHeaders,
 			types.AuditLogPartRequestBody,
 			types.AuditLogPartResponseHeaders,
 			types.AuditLogPartAuditLogTrailer,
+			types.AuditLogPartEndMarker,
 		},
 		AuditLogFormat:     "Native",
 		Logger:             logger,
